@@ -112,6 +112,8 @@ MUTATING = {
     "declare_variable",
     "add_var",
     "delay_var",
+    "add_eom_pulse_var",
+    "enable_eom_var",
 }
 
 OBSERVER = {
@@ -234,6 +236,12 @@ def _do(sut: SUT, op: dict) -> Any:
     if k == "delay_var":
         v = _get_var(sut, op)
         return seq.delay(v, op["ch"])
+    if k == "add_eom_pulse_var":
+        v = _get_var(sut, op)
+        return seq.add_eom_pulse(op["ch"], v, op.get("phase", 0.0))
+    if k == "enable_eom_var":
+        v = _get_var(sut, op)
+        return seq.enable_eom_mode(op["ch"], op["amp_on"], v)
     # ------------------------------------------------------------ observers
     if k == "obs_str":
         return str(seq)
